@@ -183,9 +183,9 @@ PROPS = {
         level_note="The receive and decide paths are exercised by calling the production functions in production order (decode, eth2 verifier, parsigdb, sigagg, aggsigdb, broadcaster re-encode; decode, dutydb.Store, Await*, re-encode) rather than through live components; "
                    "native coverage-guided fuzzing (FuzzC14Decode, byte level, corpus seeded with every valid encoding) only in the thorough tier; it cannot be pinned to VERIF_SEED, a crasher is saved as the replay file.",
         runs={
-            "quick": [dict(test="TestC14RoundTrip", checks=700, shards=3), dict(test="TestC14Mutations", checks=1300, shards=5, shrinktime="10s"),
+            "quick": [dict(test="TestC14RoundTrip", checks=700, shards=3), dict(test="TestC14Mutations", checks=1300, shards=5, shrinktime="10s"), dict(test="TestC14PeerFrameTotality", checks=3000, shrinktime="10s"),
                       dict(test="TestC14Regression|TestC14RegressionLegacyAttestation", mode="plain"), dict(test="TestC14ConsensusHashDeterministic", checks=400, bin="hash"), dict(test="TestC14ConsensusWireTotality", checks=3000, bin="hash"), dict(test="TestC14DecidedValueTotality", checks=250, bin="hash", shards=2)],
-            "thorough": [dict(test="TestC14RoundTrip", checks=20000, shards=4, timeout=3000), dict(test="TestC14Mutations", checks=150000, shards=8, timeout=3000),
+            "thorough": [dict(test="TestC14RoundTrip", checks=20000, shards=4, timeout=3000), dict(test="TestC14Mutations", checks=150000, shards=8, timeout=3000), dict(test="TestC14PeerFrameTotality", checks=200000, shards=2, timeout=3000),
                          dict(test="FuzzC14Decode", mode="fuzz", fuzztime="300s", parallel=6, timeout=900),
                          dict(test="TestC14Regression|TestC14RegressionLegacyAttestation", mode="plain"), dict(test="TestC14ConsensusHashDeterministic", checks=20000, bin="hash", timeout=3000), dict(test="TestC14ConsensusWireTotality", checks=200000, bin="hash", timeout=3000), dict(test="TestC14DecidedValueTotality", checks=8000, bin="hash", shards=4, timeout=3000)],
         },
